@@ -325,7 +325,7 @@ def g_tenc(c):
     prot = c.pick('protected', [1, 0])
     iv = c.pick('iv_size', [8, 16, 0]) if prot else 0
     p += u8(prot) + u8(iv)
-    p += c.pick('kid', [bytes(range(16)), b'\0' * 16, b'\xff' * 16])
+    p += c.pick('kid', [bytes(range(16)), b'\0' * 16, b'\xff' * 16, HEXLOOK])
     if prot == 1 and iv == 0:
         civ = c.pick('const_iv', [8, 16])
         p += u8(civ) + bytes(range(1, civ + 1))
@@ -333,16 +333,23 @@ def g_tenc(c):
 
 
 SYSTEM_IDS = [bytes.fromhex('9a04f07998404286ab92e65be0885f95'), bytes.fromhex('1077efecc0b24d02ace33c1e52e2fb4b'),
-              b'\0' * 16]
+              b'\0' * 16, b'0x' + b'0123456789abcd']
+
+
+HEXLOOK = b'0x' + b'0123456789abcd'
 
 
 def g_pssh(c):
     v = c.pick('version', [0, 1])
     p = c.pick('system_id', SYSTEM_IDS)
     if v == 1:
-        n = c.pick('kids', [1, 0, 2])
-        p += u32(n) + b''.join(bytes([i + 1] * 16) for i in range(n))
-    data = c.pick('data', [b'\x08\x01\x12\x10' + bytes(16), b'', b'\xff'])
+        n = c.pick('kids', [1, 0, 2, 'hexlook'])
+        if n == 'hexlook':
+            # binary that reads like text: the ASCII characters "0x" followed by hexadecimal digits
+            p += u32(1) + HEXLOOK
+        else:
+            p += u32(n) + b''.join(bytes([i + 1] * 16) for i in range(n))
+    data = c.pick('data', [b'\x08\x01\x12\x10' + bytes(16), b'', b'\xff', HEXLOOK + HEXLOOK, b'0xzz'])
     p += u32(len(data)) + data
     return fullbox(b'pssh', v, 0, p, c)
 
@@ -414,7 +421,7 @@ def g_vttC(c):
 
 def g_unknown(c):
     typ = c.pick('type', [b'zzzz', b'free', b'skip', b'\xa9nam'])
-    return box(typ, c.pick('payload', [b'abc', b'', b'\0' * 40]), c)
+    return box(typ, c.pick('payload', [b'abc', b'', b'\0' * 40, HEXLOOK, b'0x1']), c)
 
 
 def g_unknown_uuid(c):
